@@ -1,3 +1,4 @@
+import ast
 from typing import Iterator
 
 from inline_snapshot._adapter.adapter import adapter_map
@@ -38,18 +39,25 @@ class UndecidedValue(GenericValue):
                     yield from handle(item.node, item.value)
                 return
 
-            if not isinstance(obj, Unmanaged) and node is not None:
+            if (
+                not isinstance(obj, Unmanaged)
+                and node is not None
+                # f-strings are not managed by inline-snapshot
+                and not isinstance(node, ast.JoinedStr)
+            ):
                 new_token = value_to_token(obj)
                 if self._file._token_differ(node, new_token):
                     new_code = self._file._token_to_code(new_token)
 
+                    # only the code of this element has to be updated,
+                    # not the whole argument of the snapshot
                     yield Replace(
-                        node=self._ast_node,
+                        node=node,
                         file=self._file,
                         new_code=new_code,
                         flag="update",
-                        old_value=self._old_value,
-                        new_value=self._old_value,
+                        old_value=obj,
+                        new_value=obj,
                     )
 
         if self._file._source is not None:
